@@ -81,7 +81,8 @@ def choice(R):
     purl = pcall.args[0] if pcall.args else None
     o, on = rd.origin(pn, purl)
     from .common import canon
-    ok = isinstance(o, ast.Call) and canon(R, g, on, o.func) == 'self.websocket.proxies.get' and len(o.args) >= 1 \
+    ok = isinstance(o, ast.Call) and canon(R, g, on, o.func) == 'self.websocket.proxies.get' and not o.keywords \
+        and (len(o.args) == 1 or (len(o.args) == 2 and isinstance(o.args[1], ast.Constant) and o.args[1].value is None)) \
         and isinstance(o.args[0], ast.IfExp) and canon(R, g, on, o.args[0].test) == 'self.websocket.is_secure' \
         and fold(R, o.args[0].body, g.ctx) == 'https' and fold(R, o.args[0].orelse, g.ctx) == 'http'
     R.ob('C19.choice', 'entry chosen by the target scheme', ok, 'proxy looked up with %s' % U(o), func=f, node=o)
